@@ -178,6 +178,7 @@ func (s *state) walk(node ast.Node) {
 		s.context.pop()
 	case *ast.SwitchNode:
 		var switchValue = s.eval(node.Value)
+		var defaultCase *ast.SwitchCaseNode
 		for _, caseNode := range node.Cases {
 			for _, caseValueNode := range caseNode.Values {
 				if switchValue.Equals(s.eval(caseValueNode)) {
@@ -185,10 +186,13 @@ func (s *state) walk(node ast.Node) {
 					return
 				}
 			}
-			if len(caseNode.Values) == 0 { // default/last case
-				s.walk(caseNode.Body)
-				return
+			// {default} applies only if no {case} matches, wherever it is written
+			if len(caseNode.Values) == 0 && defaultCase == nil {
+				defaultCase = caseNode
 			}
+		}
+		if defaultCase != nil {
+			s.walk(defaultCase.Body)
 		}
 	case *ast.CallNode:
 		s.evalCall(node)
